@@ -77,7 +77,7 @@ add("b2_utf16_next", "yaml::encoding",
     desc="Utf16Decoder::next equals the reference decoder (Unicode D91): BMP unit, well-formed pair, lone trail, lead+non-trail (unit kept and re-examined), lead at EOF; every produced char is a scalar value (discharges both from_u32_unchecked sites)",
     bounds="two code units, all 2^32 value pairs; both byte orders; 0..4 bytes present; every windowing of the source",
     functions=B_FUN[1:3], covers=["B2 surrogate pair above plane 1", "B2 lone trail surrogate", "B2 lead followed by non-trail", "B2 lead at end of input"],
-    props=["C07", "C17"], timeout=600, mem_gb=10, assumptions=B_SRC, thorough_props=["C04"])
+    props=["C07", "C17", "C01"], timeout=600, mem_gb=10, assumptions=B_SRC, thorough_props=["C04"])
 add("b2_utf16_next_fault", "yaml::encoding",
     desc="B2 with a source that fails from a symbolic offset: a fault is Some(Err), never a fabricated char and never a clean end",
     bounds="as B2; fault offset any 0..=len", functions=B_FUN[1:3], covers=["B2 reader fault reached"],
@@ -147,7 +147,7 @@ add("c2_capture_read_step", "input",
     desc="CaptureReader::read from an arbitrary valid state: returns the next bytes of the ORIGINAL stream after the replay position, replays from the capture without touching the source, Ok(0) only at the end, EOF flag only when the source returned 0; invariant re-established",
     bounds="data <= 3 B (all values), any captured length / replay position / EOF flag, caller buffer 0..3, every short-read choice of the source",
     functions=C_FUN[:3], covers=["C2 read spans capture and source", "C2 read observes end of source"],
-    props=["C09", "C02", "C04"], timeout=600, mem_gb=10, assumptions=C_SRC)
+    props=["C09", "C02", "C04", "C01", "C03"], timeout=600, mem_gb=10, assumptions=C_SRC)
 add("c4_capture_read_step_fault", "input",
     desc="C2 with a source failing from a symbolic offset: the fault surfaces as Err from the read that hit it, nothing but genuine bytes is captured, EOF is not claimed",
     bounds="as C2; fault offset any 0..=len", functions=C_FUN[:3], covers=["C2 source fault surfaces as Err"],
@@ -216,14 +216,19 @@ add("d2b_attribution_nest2_small", "transcode::stream",
     desc="D2 at nesting 2 with 3 events (collection > collection > failing entry): a collection child that reports a deserializer / serializer failure to its parent is attributed correctly - the inductive case the nesting-1 harness cannot produce",
     bounds="<= 3 events, nesting 2, one fault on either side at any position", functions=D_FUN,
     covers=["D2b deserializer fault two levels down", "D2b serializer fault two levels down"],
-    flags=NOCHK, props=["C11", "C12"], timeout=1500, mem_gb=16, assumptions=D_ASM, replay="stream")
+    flags=NOCHK, props=["C11", "C12"], timeout=3600, mem_gb=40, assumptions=D_ASM, replay="stream", tier="thorough", best_effort=True)
+add("d2c_de_fault_nest2", "transcode::stream",
+    desc="deserializer faults two levels down (collection > collection > failing entry): a collection child that reports a deserializer failure to its parent is attributed to the deserializer with its own error value - the inductive case for nesting depth that the nesting-1 harness cannot produce",
+    bounds="<= 3 events, nesting 2, deserializer fault at any position (no serializer faults)", functions=D_FUN,
+    covers=["D2c deserializer fault two levels down"], flags=NOCHK, props=[], thorough_props=["C11", "C12"], tier="thorough", best_effort=True,
+    timeout=2400, mem_gb=30, assumptions=D_ASM, replay="stream")
 add("d3_totality", "transcode::stream",
     desc="as D2 with all default checks on (take_parent/unwrap panics, memory safety, overflow)", bounds="<= 4 events, nesting 1, faults anywhere",
     functions=D_FUN, covers=["D serializer fault inside a collection"], props=["C04", "C12"], timeout=2400, mem_gb=16, assumptions=D_ASM, replay="stream", tier="thorough")
 add("d3_totality_small", "transcode::stream",
-    desc="as D2 with all of Kani's default checks on (take_parent/unwrap panics, memory safety, overflow): no panic of the transcoder for any event sequence and any single fault",
+    desc="as D2 with panic, unwrap/expect, overflow and unwinding checks on (pointer checks off - the transcoder has no unsafe code; the full-check variant d3_totality is in the thorough tier): no panic of the transcoder for any event sequence and any single fault",
     bounds="<= 3 events, nesting 1, faults anywhere", functions=D_FUN, covers=["D deserializer fault inside a collection"],
-    props=["C04", "C12"], timeout=1200, mem_gb=16, assumptions=D_ASM, replay="stream")
+    flags=["--no-memory-safety-checks", "-Z", "unstable-options"], props=["C04", "C12"], timeout=1200, mem_gb=16, assumptions=D_ASM, replay="stream")
 add("d4_nest2", "transcode::stream", desc="D2 at nesting 2 (best effort)", bounds="<= 4 events, nesting 2", functions=D_FUN,
     covers=["D4 nesting two reached"], flags=NOCHK, tier="thorough", props=["C11", "C12", "C01"], timeout=3000, mem_gb=40, assumptions=D_ASM, replay="stream", best_effort=True)
 
